@@ -46,6 +46,7 @@ type node struct {
 	owner  int
 	gen    int
 	dead   bool
+	sparse int64 // > 0: the file reads as that many zero bytes without being allocated (huge files)
 }
 
 // DiskEvent describes one operation on the disk after it was applied.
@@ -428,6 +429,9 @@ func (i *simInfo) Sys() interface{}   { return nil }
 
 func infoOf(n *node) *simInfo {
 	sz := int64(len(n.data))
+	if n.sparse > 0 {
+		sz = n.sparse
+	}
 	if n.dir {
 		sz = 4096
 	}
@@ -567,6 +571,19 @@ func (f *simFile) readAt(p []byte, off int64) (int, error) {
 	}
 	if len(p) == 0 {
 		return 0, nil
+	}
+	if f.n.sparse > 0 {
+		if off >= f.n.sparse {
+			return 0, io.EOF
+		}
+		n := len(p)
+		if int64(n) > f.n.sparse-off {
+			n = int(f.n.sparse - off)
+		}
+		for i := 0; i < n; i++ {
+			p[i] = 0
+		}
+		return n, nil
 	}
 	if off >= int64(len(f.n.data)) {
 		return 0, io.EOF
@@ -844,6 +861,24 @@ func (d *SimDisk) Dump(root string) []Entry {
 	walk("", n)
 	sort.Slice(out, func(i, j int) bool { return out[i].Path < out[j].Path })
 	return out
+}
+
+// MakeSparse creates (or turns) a file into one that reads as size zero bytes without allocating them.
+func (d *SimDisk) MakeSparse(p string, size int64) error {
+	d.mu.Lock()
+	defer d.mu.Unlock()
+	n, e := d.lookup(p)
+	if e == syscall.ENOENT {
+		parent, base, pe := d.lookupParent(p)
+		if pe != nil {
+			return perr("open", p, pe)
+		}
+		n = d.addChild(parent, base, false, 0o644, 0)
+	} else if e != nil {
+		return perr("open", p, e)
+	}
+	n.data, n.sparse = nil, size
+	return nil
 }
 
 // Peek returns the node tags of a path without emitting an event.
